@@ -115,7 +115,7 @@ fn pos_of(depth: u8, h: u64, dx: f64, dy: f64) -> (f64, f64) {
 
 pub fn run(ctx: &Ctx) -> i32 {
   let quick = ctx.quick();
-  let d_exh: u8 = if quick { 3 } else { 5 };
+  let d_exh: u8 = if quick { 3 } else { 6 };
   enum Job {
     Cells(u8, u64, u64),
     Class(u8),
